@@ -515,7 +515,39 @@ def rule_key_lengths_admitted(ctx: Ctx, rep: Report) -> None:
     rep.floor(rule, 2)
 
 
+def rule_internal_key_absent_is_none(ctx: Ctx, rep: Report) -> None:
+    """C12.internal_key_absent_is_none: "no internal key" is None -- then, and only then,
+    the output commits to BIP341's unspendable point. The taproot module
+    decides the key's presence with `is None` / `is not None`: by truthiness
+    an empty or a zero key, which the caller *passed* and the key reader
+    refuses, is silently replaced by the point nobody can spend from."""
+    rule = "C12.internal_key_absent_is_none"
+    names = {"internal_pubkey", "internal_prvkey", "internal_key"}
+    n = 0
+    for q, fi in sorted(ctx.prog.functions.items()):
+        if not q.startswith("btclib.script.taproot."):
+            continue
+        mine = names & set(fi.params())
+        for t in own_nodes(fi.node):
+            tests: list[ast.AST] = []
+            if isinstance(t, (ast.If, ast.IfExp, ast.While)):
+                tests = [t.test]
+            elif isinstance(t, ast.BoolOp):
+                tests = list(t.values)
+            for e in tests:
+                inner = e.operand if isinstance(e, ast.UnaryOp) and isinstance(e.op, ast.Not) else e
+                if isinstance(inner, ast.Name) and inner.id in mine:
+                    n += 1
+                    rep.ob(rule, f"{q}:{norm(e)}", False, fi.where(e), f"`{norm(e)}` reads an empty or zero `{inner.id}` as none at all: the output silently commits to the unspendable point")
+                elif isinstance(inner, ast.Compare) and isinstance(inner.left, ast.Name) and inner.left.id in mine and isinstance(inner.ops[0], (ast.Is, ast.IsNot)):
+                    n += 1
+                    rep.ob(rule, f"{q}:{norm(inner)}", True, fi.where(e), "presence decided by `is None`")
+    rep.floor(rule, 2)
+
+
 RULES = [
+    ("C12.internal_key_absent_is_none", rule_internal_key_absent_is_none),
+
     ("C12.key_lengths_admitted", rule_key_lengths_admitted),
 
     ("C12.key_read_one_way", rule_key_read_one_way),
